@@ -313,6 +313,22 @@ def histories(ctx, eng):
                 res.violation("answer-depends-on-earlier-calls", case, got, want)
             prev = op
         res.count("histories")
+    # the public function (fresh Validator inside): the version given by position and by keyword is the version that is applied
+    if ctx.shard == 1 % ctx.nshards:
+        import mappyfile
+        for name, d in [x for x in docs if x[0] == "map"][:6]:
+            for ver in bounds + [round(b - 0.04, 2) for b in bounds]:
+                want = names(Validator().validate(copy.deepcopy(d), schema_name="map", version=ver))
+                for how, got in (("positional", lambda: mappyfile.validate(copy.deepcopy(d), ver)), ("keyword", lambda: mappyfile.validate(copy.deepcopy(d), version=ver))):
+                    res.count("public_validate_version_calls")
+                    try:
+                        g = names(got())
+                    except Exception as ex:
+                        res.violation("history-call-raises", {"part": "public-validate", "version": ver, "how": how}, f"{type(ex).__name__}: {str(ex)[:200]}", None)
+                        continue
+                    if g != want:
+                        res.violation("public-validate-ignores-or-misreads-the-version", {"part": "public-validate", "version": ver, "how": how,
+                                                                                         "schema": "map"}, g, want)
     # one version, two spellings: every integer-valued bound asked as a float and as an int on ONE Validator, in both orders
     if ctx.shard == 0:
         for b in [x for x in bounds if float(x).is_integer()]:
